@@ -19,6 +19,18 @@ flips the flags of *class-level* Parameter objects, so a Parameter copy taken me
 per-instance copy of another instance, or the copy-on-write copy a class-level assignment installs
 on a subclass — inherits `constant=False` and is never restored.  The histories are replayed on the
 implementation by harness/props/c14.py.
+
+NOT covered by the theorems, stated here so that nobody reads more into them:
+  * the refuted part above (five recorded findings in KNOWN_FINDINGS.txt);
+  * `readonly` is never edited in the model (`Op.flag` edits `constant` only), so "a read-only Parameter
+    keeps its flag over any history" is true of the operations modelled, not of `p.readonly = False`;
+  * single inheritance (`Hier`) for the "protection survives" theorems; `WF`/`Hier` are hypotheses on
+    the start state (preserved by every statement: `wf_step`; witnessed by `witnessState`), there is
+    no theorem that `initState` produces them;
+  * `update` with a forbidden key: covered for what instances hold
+    (`constant_object_changes_only_inside_edit_constant`), no separate theorem for its exception;
+  * validation is modelled for the String parameter `name` only (ValueError before the guard); references,
+    a running event loop, watchers other than the `failingEntry` probe, `per_instance=False` are outside.
 -/
 import ParamVerif.Store.ConstLemmas
 
@@ -275,8 +287,8 @@ theorem invalid_rename_changes_nothing (s : St) (i : IId) (x : Inst) (gp : PId) 
 /-- **C14 (read-only).**  `readonly_never_assignable`: at instance level (by
 `forbidden_attempt_raises_TypeError_and_keeps_value`), at class level, in the constructor — and,
 over *any* history whatsoever (blocks, flag edits, copies, class-level assignments included), a
-read-only Parameter object keeps its flag and its default, and every copy made of it is read-only
-with the same default. -/
+read-only Parameter object keeps its flag and its default.  (Copies: `per_instance_copy_is_a_copy`
+below — a per-instance copy carries the flags and default of the Parameter it was taken from.) -/
 theorem readonly_never_assignable (s : St) (ops : List Op) (p : PId) (q : Param)
     (hq : s.heap[p]? = some q) (hr : q.readonly = true) :
     ∃ q', (run s ops).heap[p]? = some q' ∧ q'.readonly = true ∧ q'.default = q.default := by
@@ -607,9 +619,9 @@ example : (step (step witnessState (.genName 0)).1 (.instSet 0 "c" 5)).2 = .type
 /-- a rejected renaming (a value `name` refuses) leaves the object as it was, and locked; an
 `edit_constant` whose entry is interrupted by a raising watcher restores what it had cleared -/
 example :
-    let s : St := { witnessState with nonStr := [8],
-      heap := [{ constant := true, readonly := false, default := 0 },
-               { constant := true, readonly := false, default := 1, strOnly := true }] }
+    let s : St := { heap := [{ constant := true, readonly := false, default := 0 },
+                             { constant := true, readonly := false, default := 1, strOnly := true }],
+                    classes := witnessState.classes, insts := witnessState.insts, nextObj := 4, nonStr := [8] }
     step s (.setName 0 8) = (s, .valueError) ∧ (step s (.instSet 0 "name" 8)).2 = .valueError ∧
     (step (step s (.setName 0 8)).1 (.instSet 0 "c" 5)).2 = .typeError ∧
     (step s (.failingEntry 0 "c")).2 = .runtimeError ∧
